@@ -37,7 +37,7 @@ CONFIG = dict(
                      dict(name="seed2", env={"VERIF_N": "40000", "VERIF_MAXN": "3"}, seed_offset=1000, timeout=800)],
     },
     trivial=r"^(ok|-|noop|over|bad-op)?$",
-    rule="cases = `reset` + ops on one module list (plain ModList, baseapp.App, or node/app.App driven through StartNode/StopNode with a launch mode of the harness): (a) every path of every translated shipped Start/Stop body replayed as a scripted module at "
+    rule="cases = `reset` + ops on one module list (plain ModList, baseapp.App, or node/app.App driven through StartNode/StopNode with a launch mode of the harness; node cases cycle through service lists none / all configured / one missing from the `services:` map first, middle, last / all missing, so that StartServices runs its skip path inside the completion closure): (a) every path of every translated shipped Start/Stop body replayed as a scripted module at "
          "each position of a 3-module list; (b) exhaustive: every list length 0..5 (thorough 0..7) x failure position or none x every "
          "synchronous/delayed mask x phase, delayed modules completed through another goroutine / a timer / directly; (b2) re-entrant callbacks: the start-completion callback issues Stop directly or through a goroutine it waits for, the stop-completion callback issues Start/Stop (only patterns that do not run under ModList.Filter's non-reentrant lock: module 0 completes later), n 1..4 x object x callback x failure position x delays; (c) random cases from one PRNG "
          "(VERIF_SEED): length 0..6, App or plain ModList, scripts T/F/delayed/panic-before/panic-after, premature or repeated Start/Stop, and in "
